@@ -354,6 +354,11 @@ func (i *PostingsIterator) loadChunk(chunk int) error {
 	if i.includeLocs {
 		err := i.locReader.loadChunk(chunk)
 		if err != nil {
+			// do not keep half a chunk: the freq/norm reader already holds
+			// the new chunk, drop it so that the next call reloads both
+			if i.includeFreqNorm {
+				i.freqNormReader.curChunkBytes = nil
+			}
 			return err
 		}
 	}
